@@ -85,6 +85,7 @@ type Contract struct {
 	Uses     []string // axiom groups this function's proofs may use
 	TaggedOnly []string // properties for which only explicitly tagged clauses of this function count
 	NoNil    bool     // rte.nil obligations are not generated (stated assumption)
+	RvWrites []string            // assumed effect on reflect storage (ghost memory RV): roots written; nil = unknown
 	AtCall   map[string][]Clause // extra call-site obligations, by callee key
 	DynPure  bool     // stated assumption: function values called by this function do not modify library state
 	Sweep    bool     // zero-annotation C07 sweep: only run-time-error (and invariant) obligations; callee preconditions assumed
@@ -310,6 +311,11 @@ func (sp *Spec) loadFile(path string, pkg string) error {
 			}
 			ck := strings.TrimSpace(f[0])
 			cur.AtCall[ck] = append(cur.AtCall[ck], Clause{Text: strings.TrimSpace(f[1]), E: e})
+		case "rvwrites":
+			if cur.RvWrites == nil {
+				cur.RvWrites = []string{}
+			}
+			cur.RvWrites = append(cur.RvWrites, splitList(rest)...)
 		case "modifies":
 			cur.Modifies = append(cur.Modifies, splitList(rest)...)
 		case "loop":
